@@ -66,6 +66,9 @@ func cmdCheck(args []string) {
 	p := loadProg(repoDir(), false, "")
 	c := &Check{P: p, Prop: *prop, Tier: *tier, start: start, info: map[string]interface{}{}, assum: map[string]bool{}}
 	rule(c)
+	if debugHook != nil {
+		debugHook(c)
+	}
 	if *tier == "thorough" {
 		thoroughExtras(c)
 	}
@@ -73,6 +76,8 @@ func cmdCheck(args []string) {
 }
 
 var explanations = map[string]string{}
+
+var debugHook func(*Check)
 
 func cmdExplain(args []string) {
 	for _, a := range args {
@@ -197,6 +202,59 @@ type Binding struct {
 	Call    *Event // the call event that passes the closure
 	Iter    *Func  // the iterating callee
 	Args    []*Term
+	// IdP and ValP name the unit's parameters that receive the scanned key part and the scanned
+	// record. They are P0/P1 for a closure handed to the scan directly and differ when the closure
+	// is a forwarding adapter around a named handler.
+	IdP, ValP string
+	Adapters  []*Func
+}
+
+func (b *Binding) id() *Term  { return atom(b.IdP) }
+func (b *Binding) val() *Term { return atom(b.ValP) }
+
+// resolveAdapter looks through closures that do nothing but forward their parameters to one
+// module function: the unit that handles the scanned element is that function.
+func (c *Check) resolveAdapter(b *Binding) {
+	for depth := 0; depth < 3; depth++ {
+		paths := c.P.PathsOf(b.Closure)
+		if len(paths) != 1 || !paths[0].OK() {
+			return
+		}
+		var call *Event
+		for _, ev := range paths[0].Events {
+			switch ev.Kind {
+			case EvCall:
+				if call != nil {
+					return
+				}
+				call = ev
+			case EvFact, EvReturn:
+			default:
+				return
+			}
+		}
+		if call == nil || call.CI.fn == nil || !call.CI.fn.isHandWritten() || call.CI.fn.Body == nil {
+			return
+		}
+		g := call.CI.fn
+		if len(c.P.SummaryOf(g).Effs) == 0 {
+			return
+		}
+		ip, vp := "", ""
+		for i, a := range call.CI.args {
+			if a.IsAt(b.IdP) {
+				ip = fmt.Sprintf("P%d", i)
+			}
+			if a.IsAt(b.ValP) {
+				vp = fmt.Sprintf("P%d", i)
+			}
+		}
+		if ip == "" || vp == "" {
+			return
+		}
+		b.Adapters = append(b.Adapters, b.Closure)
+		b.Closure, b.IdP, b.ValP = g, ip, vp
+	}
 }
 
 // closuresBoundToScan finds closures passed to a function that scans the
@@ -229,7 +287,7 @@ func (c *Check) closuresBoundToScan(family string) []*Binding {
 					continue
 				}
 				for _, e := range sum.Effs {
-					if e.Kind != "dyn" || len(e.Args) == 0 || len(e.Chain) != 0 {
+					if e.Kind != "dyn" || len(e.Args) == 0 || len(e.Chain) > 1 {
 						continue
 					}
 					a0 := e.Args[0]
@@ -246,7 +304,9 @@ func (c *Check) closuresBoundToScan(family string) []*Binding {
 						cl := p.FuncNamed(arg.A[0].At)
 						if cl != nil && !seen[cl.Name+"|"+g.Name] {
 							seen[cl.Name+"|"+g.Name] = true
-							out = append(out, &Binding{Closure: cl, Caller: f, Call: ev, Iter: g, Args: e.Args[1:]})
+							b := &Binding{Closure: cl, Caller: f, Call: ev, Iter: g, Args: e.Args[1:], IdP: "P0", ValP: "P1"}
+							c.resolveAdapter(b)
+							out = append(out, b)
 						}
 					}
 				}
@@ -377,7 +437,7 @@ func (c *Check) handFuncs(pkgs ...string) []*Func {
 	}
 	var out []*Func
 	for _, f := range c.P.Funcs {
-		if f.isHandWritten() && f.Body != nil && want[f.pkgName()] {
+		if f.isHandWritten() && f.Body != nil && want[f.pkgName()] && !c.P.inlineTarget(f) {
 			out = append(out, f)
 		}
 	}
